@@ -1,7 +1,7 @@
 """C28 check configuration."""
 SPEC = {
     "module": "C28.Property",
-    "targets": ["C28/Property.vo"],
+    "targets": ["C28/Property.vo", "C28/BigSpec.vo"],
     "theorems": [
         "C28_roundtrip_u8", "C28_roundtrip_u32", "C28_roundtrip_u64", "C28_roundtrip_i64", "C28_roundtrip_opt_i64",
         "C28_roundtrip_rsync", "C28_roundtrip_https", "C28_roundtrip_opt_https", "C28_roundtrip_bytes",
@@ -16,6 +16,12 @@ SPEC = {
         "why": {"2": "C28.Spec.spec_okb false: the value the real decoder returned on the bytes the real encoder "
                      "wrote (followed by `rest`) is not equal to the value written, or the decoder did not leave "
                      "exactly `rest` (or the value was not encoded / not decoded at all)"},
+    }, {
+        "name": "big", "bin": "c28", "check_module": "C28.BigSpec", "fn": "check_bcase", "casetype": "bcase",
+        "env": {"C28_STREAM": "big"},
+        "why": {"2": "C28.BigSpec.check_bcase: a delta map / repository state with 65535 .. 131073 entries (beyond the "
+                     "decoder's pre-allocation limit) did not read back equal, with all entries, leaving exactly the bytes "
+                     "appended behind it (digest judged in Coq, comparison made by the harness: oracle-only stream)"},
     }],
     "level_text": "Theorems over all well-formed values of every persisted record type and all trailing byte "
                   "strings (no size bound; hash maps in any iteration order of distinct keys; URI validity an "
@@ -23,7 +29,7 @@ SPEC = {
                   "Ok (v, rest) for the 16 Compose/Parse pairs of utils/binio.rs, StoredPointHeader, UpdateStatus, "
                   "StoredManifest, StoredObject, StoredStatus and RepositoryState; the executable round-trip oracle "
                   "is proved of the model on every well-formed input and evaluated on the implementation's output "
-                  "for every generated case.",
+                  "for every generated case. Records too large to be written out as Coq case terms (delta maps of 65535 .. 131073 entries, 2.6 - 5 MB) go through an oracle-only stream `big`: the implementation makes the round trip, the harness compares, Coq judges the digest.",
     "level_note": "Model hand-written from src/utils/binio.rs (working tree, incl. the C27 fix read_vec), "
                   "src/store.rs and src/collector/rrdp/archive.rs; tie = the real encoders and decoders run on "
                   "generated values, compared inside Coq: implementation bytes = model bytes (byte for byte), model "
